@@ -274,6 +274,7 @@ struct Case<'a> {
 	max_count: u64,
 	removed_at_zero: u64,
 	slot_reuse: u64,
+	iter_stop_salt: u64,
 }
 
 impl<'a> Case<'a> {
@@ -718,6 +719,89 @@ impl<'a> Case<'a> {
 			self.ctr.inc("finding.iteration");
 			self.fail(&format!("{}: iter_column_while yields {} values, {} live ({:?})", at, got.len(), want.len(), r.err()));
 		}
+		self.iter_tie(at);
+	}
+
+	/// C07 / C14 value iteration against the byte-level model (`ValueIter.pIterValues` on the
+	/// driver's physical column): the callback sequence of the REAL `iter_column_while` in callback
+	/// order (`r5 iter`), what the scan skipped and which head slots it reported, read from the
+	/// read-only dump (`r5 iterd`), and a callback that returns `false` from its k-th call on
+	/// (`r5 iterstop k`).
+	fn iter_tie(&mut self, at: &str) {
+		self.ctr.inc("iter.cases");
+		// 1. the real callback sequence
+		let mut seq: Vec<String> = vec![];
+		let r = self.sut.db().iter_column_while(0, |s| {
+			seq.push(format!("{}:{}", s.rc, show_val(&s.value)));
+			true
+		});
+		let n = seq.len();
+		let obs = match r {
+			Ok(()) => format!("n={} {}", n, if seq.is_empty() { "-".to_string() } else { seq.join(",") }),
+			Err(e) => format!("err:{}", err_kind(&e)),
+		};
+		self.ctr.add("iter.items", n as u64);
+		self.emit("r5 iter", &obs);
+		// 2. skipped slots and reported head slots, from the dump of the table files
+		match self.sut.db().verif_dump(0, true) {
+			Ok(d) => {
+				let (mut tomb, mut parts) = (0u64, 0u64);
+				let mut heads: Vec<(u8, u64, String)> = vec![];
+				for tb in &d.tables {
+					for s in &tb.slots {
+						match s.1 {
+							0 => tomb += 1,
+							1 => heads.push((tb.tier, s.0, hex(&s.3))),
+							_ => parts += 1,
+						}
+					}
+				}
+				heads.sort();
+				let mut tiers: Vec<u8> = heads.iter().map(|h| h.0).collect();
+				tiers.dedup();
+				self.ctr.add("iter.tombstones_skipped", tomb);
+				self.ctr.add("iter.parts_skipped", parts);
+				self.ctr.add("iter.tiers_hit", tiers.len() as u64);
+				if tomb > 0 {
+					self.ctr.inc("iter.cases_with_tombstone");
+				}
+				if parts > 0 {
+					self.ctr.inc("iter.cases_with_multipart");
+				}
+				if heads.len() != n {
+					self.ctr.inc("finding.iteration_heads");
+					self.fail(&format!("{}: iter_column_while reports {} values, the table files hold {} live heads", at, n, heads.len()));
+				}
+				let hs: Vec<String> = heads.iter().map(|h| format!("{}:{}:{}", h.0, h.1, h.2)).collect();
+				self.emit(
+					"r5 iterd",
+					&format!("tomb={} parts={} tiers={} {}", tomb, parts, tiers.len(), if hs.is_empty() { "-".to_string() } else { hs.join(",") }),
+				);
+			},
+			Err(e) => self.fail(&format!("{}: verif_dump failed: {:?}", at, e)),
+		}
+		// 3. early stop: `false` from the k-th call on
+		let ks: Vec<usize> = if n == 0 { vec![1] } else { vec![1, 1 + (self.iter_stop_salt as usize % n)] };
+		self.iter_stop_salt = self.iter_stop_salt.wrapping_mul(6364136223846793005).wrapping_add(1442695040888963407);
+		for k in ks {
+			let mut calls = 0usize;
+			let mut seq: Vec<String> = vec![];
+			let r = self.sut.db().iter_column_while(0, |s| {
+				calls += 1;
+				seq.push(format!("{}:{}", s.rc, show_val(&s.value)));
+				calls < k
+			});
+			let obs = match r {
+				Ok(()) => format!("n={} calls={} {}", seq.len(), calls, if seq.is_empty() { "-".to_string() } else { seq.join(",") }),
+				Err(e) => format!("err:{}", err_kind(&e)),
+			};
+			self.ctr.inc("iter.stop_cases");
+			if calls > k {
+				// the callback was called again after it had returned `false`
+				self.ctr.inc("iter.stop_called_again_after_false");
+			}
+			self.emit(&format!("r5 iterstop {}", k), &obs);
+		}
 	}
 
 	fn reopen(&mut self) {
@@ -931,6 +1015,7 @@ fn random_case(seed: u64, thorough: bool, root: &Path, t: &mut Trace, ctr: &mut 
 		max_count: 0,
 		removed_at_zero: 0,
 		slot_reuse: 0,
+		iter_stop_salt: seed,
 	};
 	c.emit(&format!("r5 init 16 {} {}", kind.name(), if purge { "purge" } else { "nopurge" }), "ok");
 	// a small set of hot keys takes most of the repeated operations
@@ -1052,6 +1137,11 @@ fn random_case(seed: u64, thorough: bool, root: &Path, t: &mut Trace, ctr: &mut 
 	if !c.sut.dead {
 		c.check_all();
 		c.structure("final");
+		// totality tie (R3_total / R5_total): the crate planned and enacted every record of this case
+		// without error; the model's physical run (`rStep` / `pStep`) must have been `.ok` at every step
+		c.emit("r5 total", "ok");
+		c.ctr.inc("total.cases_crate_ok");
+		c.ctr.add("total.records_crate_ok", c.sut.n_records as u64);
 	}
 	c.ctr.inc(&format!("growth.max_bits.{}", c.max_bits));
 	c.ctr.inc(&format!("count.max_reached.{}", std::cmp::min(c.max_count, 9)));
